@@ -21,7 +21,7 @@ fn spec(tier: Tier) -> SimSpec {
             must_have: Some(Kind::Ordered),
         },
         ops,
-        oracles: Oracles { content: true, content_kinds: vec![Kind::Ordered], ..Default::default() },
+        oracles: Oracles { content: true, content_kinds: vec![Kind::Ordered], impolite_once: true, ..Default::default() },
         liveness: true,
         quiescence: false,
         quiescence_memory: false,
@@ -41,7 +41,7 @@ impl Property for C01 {
     fn assumptions(&self) -> Vec<String> {
         vec![
             "liveness is asserted only when the tick budget is at least one slice (1200 B) and neither side was disconnected (memory disconnects are C09's subject)".into(),
-            "the application only submits what can_send_message allows".into(),
+            "the application only submits what can_send_message allows, except that in about half of the cases it insists once on a reliable message that was refused (documented: the connection is disconnected; a connection that stays up has accepted the message)".into(),
             "both endpoints are updated with the same durations".into(),
         ]
     }
